@@ -20,7 +20,7 @@ Inductive sevent :=
 | EvClosing                                      (* this side has begun to close the connection *)
 | EvClosed                                       (* the connection has ended (peer close, or the local close completed) *)
 | EvCtrl (stype system status : Z)               (* inbound control message *)
-| EvData (system : Z) (w : bool) (wellformed : bool)   (* inbound data message; w: it asks for a reply itself (W-bit) *)
+| EvData (system : Z) (w : bool) (wellformed : bool)   (* inbound data message; w: it is a primary (W-bit set, or an odd function outside stream 9): it cannot be the reply to anything *)
 | EvOpen (stype system : Z)                      (* this side sent a request of type stype and waits for its response *)
 | EvGiveUp (system : Z).                         (* this side stopped waiting (reply timeout) *)
 
@@ -91,8 +91,8 @@ Definition e37_step (s : sess) (e : sevent) : option (sess * list sout) :=
     | NotConnected => None
     | NotSelected => Some (s, [OutReject system REASON_NOT_SELECTED])
     | Selected =>
-      (* a message that asks for a reply is a primary of the peer: it is delivered even if its system bytes (chosen by the peer)
-         equal those of an open transaction of ours; only a message without W-bit can be the reply to that transaction *)
+      (* a primary of the peer is delivered even if its system bytes (chosen by the peer) equal those of an open transaction of ours;
+         only a secondary (even function, no W-bit) or an S9 error report can be the reply to that transaction *)
       if wellformed
       then if any_waiting s system && negb w
            then Some ({| st := Selected; waiting := drop s system; closing := closing s |}, [OutResolve system])
